@@ -5,6 +5,7 @@ history-shaped properties).  Elements are opaque payload strings.
 import Driver.Util
 import Matreex.Model.Transpose
 import Matreex.Model.Construct
+import Matreex.Model.Swap
 
 namespace Driver
 open Matreex
@@ -50,7 +51,8 @@ def mkMatrix (o : Order) (r c base : Nat) (zst : Bool) : Matrix String :=
 def stepHist (w : World) (ws : List String) : Option (World × String) :=
   match ws with
   | ["elem", kind] =>
-    let (z, es) := if kind = "unit" then (true, 0) else (false, 24)
+    let (z, es) := if kind = "unit" then (true, 0) else if kind = "u8" then (false, 1)
+      else if kind = "u32" then (false, 4) else if kind = "w24" then (false, 24) else (false, 40)
     some ({ w with zst := z, es := es, regs := Array.replicate 8 none }, "ok")
   | ["new", r, o, nr, nc, base] => do
     let r ← r.toNat?; let o ← parseOrder o; let nr ← nr.toNat?; let nc ← nc.toNat?; let base ← base.toNat?
@@ -74,6 +76,25 @@ def stepHist (w : World) (ws : List String) : Option (World × String) :=
   | ["resize", r, nr, nc] => do
     let r ← r.toNat?; let nr ← nr.toNat?; let nc ← nc.toNat?
     pure (inplaceRes w r (fun m => m.resize w.es ⟨nr, nc⟩ (if w.zst then "u" else "d")))
+  | ["zswap", name, o, nr, nc, a, b] => do
+    let o ← parseOrder o; let nr ← nr.toNat?; let nc ← nc.toNat?; let a ← a.toNat?; let b ← b.toNat?
+    -- zero-sized elements: only the outcome is observable; bounds decide it (the data path for
+    -- extents this large is covered by the theorem, not by running the model)
+    let extent := if name = "swap_rows" then nr else nc
+    let _ := o
+    pure (w, if a < extent ∧ b < extent then "ok" else "err IndexOutOfBounds")
+  | ["swap_rows", r, a, b] => do
+    let r ← r.toNat?; let a ← a.toNat?; let b ← b.toNat?
+    pure (inplaceRes w r (·.swapRows w.es a b))
+  | ["swap_cols", r, a, b] => do
+    let r ← r.toNat?; let a ← a.toNat?; let b ← b.toNat?
+    pure (inplaceRes w r (·.swapCols w.es a b))
+  | ["swap", r, k1, i1, j1, k2, i2, j2] => do
+    let r ← r.toNat?
+    let i1 ← parseInt i1; let j1 ← parseInt j1; let i2 ← parseInt i2; let j2 ← parseInt j2
+    let res := fun (m : Matrix String) (k : String) (i j : Int) =>
+      if k = "w" then (WrappingIndex.mk i j).resolve m else m.getIdx i.toNat j.toNat
+    pure (inplaceRes w r (fun m => m.swapElems (res m k1 i1 j1) (res m k2 i2 j2)))
   | _ => none
 
 end Driver
